@@ -22,12 +22,14 @@ EXTENDS Integers, Sequences, FiniteSets, TLC
 
 CONSTANTS
     Chain,       \* sequence over {"auth","gzip","cors","log"}: the app.Use order in main.go
-    Routes,      \* set of [id, group, methods]: walked off the real router; group "none" = unregistered path
+    Routes,      \* set of [id, group, methods, light]: walked off the real router; group "none" = unregistered path;
+                 \* light = only a few headers are tried on it
     Methods,     \* every HTTP method tried
     Creds,       \* set of [u, p]: configured login / password (abstract strings, u colon-free and non-empty)
     MaxLen,      \* every payload up to this length is enumerated on the deep routes
     DeepRoutes,  \* ids of the routes that get every payload; the others get one representative per class
-    HandlerStatus \* statuses a handler may answer with (a placeholder set for model checking)
+    HandlerStatus, \* statuses a handler may answer with (a placeholder set for model checking)
+    CaseFilter(_, _, _, _)  \* (cred, cors, route, method): which combinations are enumerated (bounds of the run)
 
 Sym == {"a", "b", ":"}
 MwNames == {"auth", "gzip", "cors", "log"}
@@ -73,7 +75,7 @@ RepHdrs(c) == NonBasicHdrs \cup {Basic("clean", pl) : pl \in RepPayloads(c)}
 FewHdrs(c) == {NonBasic("absent"), Basic("clean", Right(c)), Basic("clean", c.u \o <<":">>)}
 
 Registered(r) == r.method \in r.route.methods
-HdrsFor(c, rt, m) == IF m \notin rt.methods THEN FewHdrs(c)
+HdrsFor(c, rt, m) == IF m \notin rt.methods \/ rt.light THEN FewHdrs(c)
                      ELSE IF rt.id \in DeepRoutes THEN FullHdrs(c) ELSE RepHdrs(c)
 
 -----------------------------------------------------------------------------
@@ -108,7 +110,8 @@ TypeOK ==
 
 Init ==
     \E c \in Creds, co \in BOOLEAN, rt \in Routes, m \in Methods, ae \in {"none", "gzip"}, og \in {"none", "some"} :
-      \E h \in HdrsFor(c, rt, m) :
+      /\ CaseFilter(c, co, rt, m)
+      /\ \E h \in HdrsFor(c, rt, m) :
         /\ cfg = [cred |-> c, cors |-> co]
         /\ req = [route |-> rt, method |-> m, hdr |-> h, ae |-> ae, origin |-> og]
         /\ stage = "match" /\ mi = 0
